@@ -10692,3 +10692,68 @@ let wrapmark_lost pre f post =
     (match line_at post.vterm (wrap_left pre.vterm) with
      | Some l -> negb l.wrapped
      | None -> false)
+
+(** val text_at : cell list list -> cell list list -> nat -> bool **)
+
+let text_at l l' k =
+  (&&)
+    ((&&) (list_eqb cells_eqb (firstn k l') (firstn k l))
+      (is_prefix (nth k l' []) (nth k l [])))
+    (tail_ok (skipn (S k) l') (skipn (S k) l))
+
+(** val text_upto : cell list list -> cell list list -> nat -> nat -> bool **)
+
+let text_upto l l' k o =
+  let old_k = nth k l [] in
+  let new_k = nth k l' [] in
+  let m = length old_k in
+  (&&) (text_at l l' k)
+    (eq_upto_blank (firstn (Nat.min o m) new_k) (firstn (Nat.min o m) old_k))
+
+(** val return_text_ok : cell list list -> cell list list -> bool **)
+
+let return_text_ok l l' =
+  (&&) (tail_ok l' l) (existsb (text_at l l') (seq O (S (length l))))
+
+(** val holds_C16_return_text : vt -> func -> vt -> bool **)
+
+let holds_C16_return_text pre f post =
+  let t = pre.vterm in
+  let t' = post.vterm in
+  if (&&) (is_alt_b t) (negb (is_alt_b t'))
+  then (match f with
+        | Decrst ms ->
+          let l = logical_t t.other.lines in
+          let l' = logical_t t'.buf.lines in
+          (&&)
+            ((&&)
+              ((&&) (return_text_ok l l')
+                (if (&&) (Nat.eqb t.other.bcols t.cols)
+                      (Nat.eqb t.other.brows t.rows)
+                 then lines_eqb t'.buf.lines t.other.lines
+                 else true)) (holds_C02_state post))
+            (match ms with
+             | [] -> true
+             | d :: l0 ->
+               (match d with
+                | AltScreenBuffer ->
+                  (match l0 with
+                   | [] ->
+                     (&&)
+                       (let (k, o) = curs t.other t.cur_col t.cur_row in
+                        text_upto l l' k o)
+                       (if Nat.ltb t.cur_row t.other.brows
+                        then resize_preserves t.other t.cur_col t.cur_row
+                               t'.buf t'.cur_col t'.cur_row
+                        else true)
+                   | _ :: _ -> true)
+                | SaveCursorAltScreenBuffer ->
+                  (match l0 with
+                   | [] ->
+                     let c = saved_of t Primary in
+                     resize_preserves t.other c.sc_col c.sc_row t'.buf
+                       t'.cur_col t'.cur_row
+                   | _ :: _ -> true)
+                | _ -> true))
+        | _ -> true)
+  else true
